@@ -47,7 +47,10 @@ TRUSTED_BASE = [
     'bytes.split(), bytes.strip(), bytes.split(b" ", 1), bytes.split(b"\\r\\n"), binascii.hexlify/unhexlify, '
     '.decode("ascii"), strict UTF-8 validity of .decode(), int(str) on ASCII text, str(int)',
     'Auth/SpecServer.lean: transcription of the server state table of the DBus specification (compared on every '
-    'run, stream spec-table, with the independent Python monitor of this harness)',
+    'run, stream spec-table, with the Python monitor of this harness).  The TABLE is transcribed twice '
+    'independently; the LINE GRAMMAR (command word up to the first space, whitespace-separated AUTH arguments, '
+    'strip + unhexlify + ASCII for responses) is one transcription shared by spec, code model and monitor: '
+    'lexical decisions such as `AUTH ANONYMOUS\\t6162` = mechanism + response are checked against nothing independent',
     'the environment of the real mechanisms (passwd, keyring directory, cookie file, os.urandom, hashlib.sha1, '
     'time) enters the model as explicit inputs recorded from the run of the implementation; SHA-1 itself is a '
     'parameter of the model',
@@ -59,8 +62,8 @@ ASSUMPTIONS = [
     'UnicodeDecodeError out of dataReceived (modelled as `crashed`, exercised, not judged by the oracle)',
     'reads are non-empty (Twisted never delivers an empty read; data[0] of an empty first read raises IndexError)',
     'time does not advance by 30 s within one handshake; existing cookie files are well-formed; no stale lock file',
-    'EXTERNAL: a peer uid without a passwd entry makes BEGIN raise KeyError (getUserName); modelled as `crashed`, '
-    'described in notes/C06.md, not judged',
+    'EXTERNAL: a peer uid without a passwd entry (or -1) is REJECTED (repair C06-05); before it, OK then KeyError at BEGIN',
+    'hex digests that differ from the expected one only in letter case (`upper` variant) are not judged',
     'the binary branch after the hand-off is outside C06: the harness collects the bytes instead of parsing them',
 ]
 RULE = ('scripted-exhaustive: every line sequence up to length 3 (quick) / 4 (thorough) over 15 line forms x every '
